@@ -180,99 +180,119 @@ func c20seqErr[T any](seq Seq[T]) (n int, err error) {
 	return n, err
 }
 
+// String arguments are symbolic too (0 or 1 arbitrary byte each, so the empty string is
+// included): the table must not look at them.
+var (
+	c20repo, c20tag, c20id, c20from, c20to, c20at, c20mt string
+	c20dig                                               Digest
+)
+
+func c20args() {
+	c20repo, c20tag, c20id = verifString("repo", 1), verifString("tag", 1), verifString("id", 1)
+	c20from, c20to, c20at, c20mt = verifString("from", 1), verifString("to", 1), verifString("at", 1), verifString("mt", 1)
+	c20dig = Digest(verifString("dig", 1))
+}
+
 func VerifC20_GetBlob() {
+	c20args()
 	c := &c20rec{}
 	rd := &c20reader{}
 	f := c20funcs(c, rd, nil, nil, nil)
-	r, err := f.GetBlob(c20ctx, "repo", "sha256:d")
+	r, err := f.GetBlob(c20ctx, c20repo, c20dig)
 	if f != nil && f.GetBlob_ != nil {
 		c20set(c, "GetBlob")
-		verifAssert(r == BlobReader(rd) && err == c20err && c.s1 == "repo" && c.dig == "sha256:d", "set-same-args-results")
+		verifAssert(r == BlobReader(rd) && err == c20err && c.s1 == c20repo && c.dig == c20dig, "set-same-args-results")
 	} else {
 		verifAssert(r == nil, "unset-nil-result")
-		c20unset(c, f, err, "GetBlob", "repo")
+		c20unset(c, f, err, "GetBlob", c20repo)
 	}
 }
 
 func VerifC20_GetBlobRange() {
+	c20args()
 	c := &c20rec{}
 	rd := &c20reader{}
 	f := c20funcs(c, rd, nil, nil, nil)
 	o0, o1 := verifInt64("o0"), verifInt64("o1")
-	r, err := f.GetBlobRange(c20ctx, "repo", "sha256:d", o0, o1)
+	r, err := f.GetBlobRange(c20ctx, c20repo, c20dig, o0, o1)
 	if f != nil && f.GetBlobRange_ != nil {
 		c20set(c, "GetBlobRange")
-		verifAssert(r == BlobReader(rd) && err == c20err && c.s1 == "repo" && c.dig == "sha256:d" && c.i1 == o0 && c.i2 == int(o1), "set-same-args-results")
+		verifAssert(r == BlobReader(rd) && err == c20err && c.s1 == c20repo && c.dig == c20dig && c.i1 == o0 && c.i2 == int(o1), "set-same-args-results")
 	} else {
 		verifAssert(r == nil, "unset-nil-result")
-		c20unset(c, f, err, "GetBlobRange", "repo")
+		c20unset(c, f, err, "GetBlobRange", c20repo)
 	}
 }
 
 func VerifC20_GetManifest() {
+	c20args()
 	c := &c20rec{}
 	rd := &c20reader{}
 	f := c20funcs(c, rd, nil, nil, nil)
-	r, err := f.GetManifest(c20ctx, "repo", "sha256:d")
+	r, err := f.GetManifest(c20ctx, c20repo, c20dig)
 	if f != nil && f.GetManifest_ != nil {
 		c20set(c, "GetManifest")
-		verifAssert(r == BlobReader(rd) && err == c20err && c.s1 == "repo" && c.dig == "sha256:d", "set-same-args-results")
+		verifAssert(r == BlobReader(rd) && err == c20err && c.s1 == c20repo && c.dig == c20dig, "set-same-args-results")
 	} else {
 		verifAssert(r == nil, "unset-nil-result")
-		c20unset(c, f, err, "GetManifest", "repo")
+		c20unset(c, f, err, "GetManifest", c20repo)
 	}
 }
 
 func VerifC20_GetTag() {
+	c20args()
 	c := &c20rec{}
 	rd := &c20reader{}
 	f := c20funcs(c, rd, nil, nil, nil)
-	r, err := f.GetTag(c20ctx, "repo", "tag")
+	r, err := f.GetTag(c20ctx, c20repo, c20tag)
 	if f != nil && f.GetTag_ != nil {
 		c20set(c, "GetTag")
-		verifAssert(r == BlobReader(rd) && err == c20err && c.s1 == "repo" && c.s2 == "tag", "set-same-args-results")
+		verifAssert(r == BlobReader(rd) && err == c20err && c.s1 == c20repo && c.s2 == c20tag, "set-same-args-results")
 	} else {
 		verifAssert(r == nil, "unset-nil-result")
-		c20unset(c, f, err, "GetTag", "repo")
+		c20unset(c, f, err, "GetTag", c20repo)
 	}
 }
 
 func VerifC20_ResolveBlob() {
+	c20args()
 	c := &c20rec{}
 	f := c20funcs(c, nil, nil, nil, nil)
-	d, err := f.ResolveBlob(c20ctx, "repo", "sha256:d")
+	d, err := f.ResolveBlob(c20ctx, c20repo, c20dig)
 	if f != nil && f.ResolveBlob_ != nil {
 		c20set(c, "ResolveBlob")
-		verifAssert(d.Digest == c20desc.Digest && d.Size == 42 && err == c20err && c.s1 == "repo" && c.dig == "sha256:d", "set-same-args-results")
+		verifAssert(d.Digest == c20desc.Digest && d.Size == 42 && err == c20err && c.s1 == c20repo && c.dig == c20dig, "set-same-args-results")
 	} else {
 		verifAssert(d.Digest == "" && d.Size == 0, "unset-zero-result")
-		c20unset(c, f, err, "ResolveBlob", "repo")
+		c20unset(c, f, err, "ResolveBlob", c20repo)
 	}
 }
 
 func VerifC20_ResolveManifest() {
+	c20args()
 	c := &c20rec{}
 	f := c20funcs(c, nil, nil, nil, nil)
-	d, err := f.ResolveManifest(c20ctx, "repo", "sha256:d")
+	d, err := f.ResolveManifest(c20ctx, c20repo, c20dig)
 	if f != nil && f.ResolveManifest_ != nil {
 		c20set(c, "ResolveManifest")
-		verifAssert(d.Digest == c20desc.Digest && d.Size == 42 && err == c20err && c.s1 == "repo" && c.dig == "sha256:d", "set-same-args-results")
+		verifAssert(d.Digest == c20desc.Digest && d.Size == 42 && err == c20err && c.s1 == c20repo && c.dig == c20dig, "set-same-args-results")
 	} else {
 		verifAssert(d.Digest == "" && d.Size == 0, "unset-zero-result")
-		c20unset(c, f, err, "ResolveManifest", "repo")
+		c20unset(c, f, err, "ResolveManifest", c20repo)
 	}
 }
 
 func VerifC20_ResolveTag() {
+	c20args()
 	c := &c20rec{}
 	f := c20funcs(c, nil, nil, nil, nil)
-	d, err := f.ResolveTag(c20ctx, "repo", "tag")
+	d, err := f.ResolveTag(c20ctx, c20repo, c20tag)
 	if f != nil && f.ResolveTag_ != nil {
 		c20set(c, "ResolveTag")
-		verifAssert(d.Digest == c20desc.Digest && d.Size == 42 && err == c20err && c.s1 == "repo" && c.s2 == "tag", "set-same-args-results")
+		verifAssert(d.Digest == c20desc.Digest && d.Size == 42 && err == c20err && c.s1 == c20repo && c.s2 == c20tag, "set-same-args-results")
 	} else {
 		verifAssert(d.Digest == "" && d.Size == 0, "unset-zero-result")
-		c20unset(c, f, err, "ResolveTag", "repo")
+		c20unset(c, f, err, "ResolveTag", c20repo)
 	}
 }
 
@@ -281,114 +301,123 @@ type c20ioReader struct{}
 func (*c20ioReader) Read([]byte) (int, error) { return 0, io.EOF }
 
 func VerifC20_PushBlob() {
+	c20args()
 	c := &c20rec{}
 	f := c20funcs(c, nil, nil, nil, nil)
 	in := Descriptor{MediaType: "m", Size: verifInt64("size"), Digest: "sha256:in"}
 	rr := &c20ioReader{}
-	d, err := f.PushBlob(c20ctx, "repo", in, rr)
+	d, err := f.PushBlob(c20ctx, c20repo, in, rr)
 	if f != nil && f.PushBlob_ != nil {
 		c20set(c, "PushBlob")
-		verifAssert(d.Digest == c20desc.Digest && err == c20err && c.s1 == "repo" && c.desc.Size == in.Size && c.desc.Digest == in.Digest && c.r == io.Reader(rr), "set-same-args-results")
+		verifAssert(d.Digest == c20desc.Digest && err == c20err && c.s1 == c20repo && c.desc.Size == in.Size && c.desc.Digest == in.Digest && c.r == io.Reader(rr), "set-same-args-results")
 	} else {
 		verifAssert(d.Digest == "" && d.Size == 0, "unset-zero-result")
-		c20unset(c, f, err, "PushBlob", "repo")
+		c20unset(c, f, err, "PushBlob", c20repo)
 	}
 }
 
 func VerifC20_PushBlobChunked() {
+	c20args()
 	c := &c20rec{}
 	wr := &c20writer{}
 	f := c20funcs(c, nil, wr, nil, nil)
 	cs := verifInt("chunkSize")
-	w, err := f.PushBlobChunked(c20ctx, "repo", cs)
+	w, err := f.PushBlobChunked(c20ctx, c20repo, cs)
 	if f != nil && f.PushBlobChunked_ != nil {
 		c20set(c, "PushBlobChunked")
-		verifAssert(w == BlobWriter(wr) && err == c20err && c.s1 == "repo" && c.i2 == cs, "set-same-args-results")
+		verifAssert(w == BlobWriter(wr) && err == c20err && c.s1 == c20repo && c.i2 == cs, "set-same-args-results")
 	} else {
 		verifAssert(w == nil, "unset-nil-result")
-		c20unset(c, f, err, "PushBlobChunked", "repo")
+		c20unset(c, f, err, "PushBlobChunked", c20repo)
 	}
 }
 
 func VerifC20_PushBlobChunkedResume() {
+	c20args()
 	c := &c20rec{}
 	wr := &c20writer{}
 	f := c20funcs(c, nil, wr, nil, nil)
 	off, cs := verifInt64("offset"), verifInt("chunkSize")
-	w, err := f.PushBlobChunkedResume(c20ctx, "repo", "id", off, cs)
+	w, err := f.PushBlobChunkedResume(c20ctx, c20repo, c20id, off, cs)
 	if f != nil && f.PushBlobChunkedResume_ != nil {
 		c20set(c, "PushBlobChunkedResume")
-		verifAssert(w == BlobWriter(wr) && err == c20err && c.s1 == "repo" && c.s2 == "id" && c.i1 == off && c.i2 == cs, "set-same-args-results")
+		verifAssert(w == BlobWriter(wr) && err == c20err && c.s1 == c20repo && c.s2 == c20id && c.i1 == off && c.i2 == cs, "set-same-args-results")
 	} else {
 		verifAssert(w == nil, "unset-nil-result")
-		c20unset(c, f, err, "PushBlobChunkedResume", "repo")
+		c20unset(c, f, err, "PushBlobChunkedResume", c20repo)
 	}
 }
 
 func VerifC20_MountBlob() {
+	c20args()
 	c := &c20rec{}
 	f := c20funcs(c, nil, nil, nil, nil)
-	d, err := f.MountBlob(c20ctx, "from", "to", "sha256:d")
+	d, err := f.MountBlob(c20ctx, c20from, c20to, c20dig)
 	if f != nil && f.MountBlob_ != nil {
 		c20set(c, "MountBlob")
-		verifAssert(d.Digest == c20desc.Digest && err == c20err && c.s1 == "from" && c.s2 == "to" && c.dig == "sha256:d", "set-same-args-results")
+		verifAssert(d.Digest == c20desc.Digest && err == c20err && c.s1 == c20from && c.s2 == c20to && c.dig == c20dig, "set-same-args-results")
 	} else {
 		verifAssert(d.Digest == "" && d.Size == 0, "unset-zero-result")
-		c20unset(c, f, err, "MountBlob", "to")
+		c20unset(c, f, err, "MountBlob", c20to)
 	}
 }
 
 func VerifC20_PushManifest() {
+	c20args()
 	c := &c20rec{}
 	f := c20funcs(c, nil, nil, nil, nil)
 	data := []byte{1, 2, 3}
-	d, err := f.PushManifest(c20ctx, "repo", "tag", data, "mt")
+	d, err := f.PushManifest(c20ctx, c20repo, c20tag, data, c20mt)
 	if f != nil && f.PushManifest_ != nil {
 		c20set(c, "PushManifest")
-		verifAssert(d.Digest == c20desc.Digest && err == c20err && c.s1 == "repo" && c.s2 == "tag" && len(c.data) == 3 && &c.data[0] == &data[0] && c.desc.MediaType == "mt", "set-same-args-results")
+		verifAssert(d.Digest == c20desc.Digest && err == c20err && c.s1 == c20repo && c.s2 == c20tag && len(c.data) == 3 && &c.data[0] == &data[0] && c.desc.MediaType == c20mt, "set-same-args-results")
 	} else {
 		verifAssert(d.Digest == "" && d.Size == 0, "unset-zero-result")
-		c20unset(c, f, err, "PushManifest", "repo")
+		c20unset(c, f, err, "PushManifest", c20repo)
 	}
 }
 
 func VerifC20_DeleteBlob() {
+	c20args()
 	c := &c20rec{}
 	f := c20funcs(c, nil, nil, nil, nil)
-	err := f.DeleteBlob(c20ctx, "repo", "sha256:d")
+	err := f.DeleteBlob(c20ctx, c20repo, c20dig)
 	if f != nil && f.DeleteBlob_ != nil {
 		c20set(c, "DeleteBlob")
-		verifAssert(err == c20err && c.s1 == "repo" && c.dig == "sha256:d", "set-same-args-results")
+		verifAssert(err == c20err && c.s1 == c20repo && c.dig == c20dig, "set-same-args-results")
 	} else {
-		c20unset(c, f, err, "DeleteBlob", "repo")
+		c20unset(c, f, err, "DeleteBlob", c20repo)
 	}
 }
 
 func VerifC20_DeleteManifest() {
+	c20args()
 	c := &c20rec{}
 	f := c20funcs(c, nil, nil, nil, nil)
-	err := f.DeleteManifest(c20ctx, "repo", "sha256:d")
+	err := f.DeleteManifest(c20ctx, c20repo, c20dig)
 	if f != nil && f.DeleteManifest_ != nil {
 		c20set(c, "DeleteManifest")
-		verifAssert(err == c20err && c.s1 == "repo" && c.dig == "sha256:d", "set-same-args-results")
+		verifAssert(err == c20err && c.s1 == c20repo && c.dig == c20dig, "set-same-args-results")
 	} else {
-		c20unset(c, f, err, "DeleteManifest", "repo")
+		c20unset(c, f, err, "DeleteManifest", c20repo)
 	}
 }
 
 func VerifC20_DeleteTag() {
+	c20args()
 	c := &c20rec{}
 	f := c20funcs(c, nil, nil, nil, nil)
-	err := f.DeleteTag(c20ctx, "repo", "tag")
+	err := f.DeleteTag(c20ctx, c20repo, c20tag)
 	if f != nil && f.DeleteTag_ != nil {
 		c20set(c, "DeleteTag")
-		verifAssert(err == c20err && c.s1 == "repo" && c.s2 == "tag", "set-same-args-results")
+		verifAssert(err == c20err && c.s1 == c20repo && c.s2 == c20tag, "set-same-args-results")
 	} else {
-		c20unset(c, f, err, "DeleteTag", "repo")
+		c20unset(c, f, err, "DeleteTag", c20repo)
 	}
 }
 
 func VerifC20_Repositories() {
+	c20args()
 	c := &c20rec{}
 	marker := 0
 	seq := Seq[string](func(yield func(string, error) bool) { marker++; yield("x", nil) })
@@ -405,34 +434,36 @@ func VerifC20_Repositories() {
 }
 
 func VerifC20_Tags() {
+	c20args()
 	c := &c20rec{}
 	marker := 0
 	seq := Seq[string](func(yield func(string, error) bool) { marker++; yield("x", nil) })
 	f := c20funcs(c, nil, nil, seq, nil)
-	got := f.Tags(c20ctx, "repo", "start")
+	got := f.Tags(c20ctx, c20repo, "start")
 	n, err := c20seqErr(got)
 	if f != nil && f.Tags_ != nil {
 		c20set(c, "Tags")
-		verifAssert(marker == 1 && n == 1 && err == nil && c.s1 == "repo" && c.s2 == "start", "set-same-args-results")
+		verifAssert(marker == 1 && n == 1 && err == nil && c.s1 == c20repo && c.s2 == "start", "set-same-args-results")
 	} else {
 		verifAssert(marker == 0 && n == 1, "unset-error-seq")
-		c20unset(c, f, err, "Tags", "repo")
+		c20unset(c, f, err, "Tags", c20repo)
 	}
 }
 
 func VerifC20_Referrers() {
+	c20args()
 	c := &c20rec{}
 	marker := 0
 	seq := Seq[Descriptor](func(yield func(Descriptor, error) bool) { marker++; yield(Descriptor{}, nil) })
 	f := c20funcs(c, nil, nil, nil, seq)
-	got := f.Referrers(c20ctx, "repo", "sha256:d", "at")
+	got := f.Referrers(c20ctx, c20repo, c20dig, c20at)
 	n, err := c20seqErr(got)
 	if f != nil && f.Referrers_ != nil {
 		c20set(c, "Referrers")
-		verifAssert(marker == 1 && n == 1 && err == nil && c.s1 == "repo" && c.dig == "sha256:d" && c.s2 == "at", "set-same-args-results")
+		verifAssert(marker == 1 && n == 1 && err == nil && c.s1 == c20repo && c.dig == c20dig && c.s2 == c20at, "set-same-args-results")
 	} else {
 		verifAssert(marker == 0 && n == 1, "unset-error-seq")
-		c20unset(c, f, err, "Referrers", "repo")
+		c20unset(c, f, err, "Referrers", c20repo)
 	}
 }
 
